@@ -1,0 +1,38 @@
+//go:build verif
+
+// Contracts for package keyvalue, checked by /verif (govc). Comment-only.
+package keyvalue
+
+// ---------------------------------------------------------------------------------------------
+// C07: the client side of the wire adapter. One result per answered range, in order, with the
+// answered count and hash and with as many elements as the answer lists; the element list of every
+// result is its own freshly allocated array (younger than everything that existed before, so no two
+// results - and nothing the caller passed in - share element storage).
+//@ func iface keyvalue.Client.StoreDiff
+//@   modifies nothing
+//@   posits [response_or_error] result1 == nil ==> result0 != nil
+//@   posits [response_is_new_memory] result1 == nil ==> fresh(result0) && (forall k int :: 0 <= k && k < len(result0.Results) ==> fresh(result0.Results[k]))
+//@ func (*remote).Ranges
+//@   requires r != nil && r.client != nil
+//@   ensures [one_result_per_answer] err == nil ==> len(results) == len(resp.Results)
+//@   ensures [count_and_hash_copied] err == nil ==> (forall i int :: 0 <= i && i < len(results) ==> results[i].Count == resp.Results[i].Count && results[i].Hash == resp.Results[i].Hash)
+//@   ensures [no_element_dropped]    err == nil ==> (forall i int :: 0 <= i && i < len(results) ==> len(results[i].Elements) == len(resp.Results[i].Elements))
+//@   ensures [element_lists_are_separate] err == nil ==> (forall i int, j int :: 0 <= i && i < j && j < len(results) && len(results[j].Elements) > 0 ==> rootof(results[i].Elements) < rootof(results[j].Elements))
+//@   loop 0:
+//@     invariant -1 <= rangeindex && rangeindex < len(ranges) && len(pbRanges) == rangeindex + 1 && rootof(pbRanges) > 0
+//@     invariant len(results) == 0 && r != nil && r.client != nil
+//@   loop 1:
+//@     invariant -1 <= rangeindex && rangeindex < len(resp.Results) && len(results) == rangeindex + 1 && resp != nil
+//@     invariant rootof(results) != rootof(resp) && (forall k int :: 0 <= k && k < len(resp.Results) ==> rootof(resp.Results[k]) != rootof(results))
+//@     invariant resp.Results == atloop(resp.Results) && (forall k int :: 0 <= k && k < len(resp.Results) ==> resp.Results[k].Hash == atloop(resp.Results[k].Hash) && resp.Results[k].Elements == atloop(resp.Results[k].Elements))
+//@     invariant forall i int :: 0 <= i && i < len(results) ==> results[i].Count == resp.Results[i].Count && results[i].Hash == resp.Results[i].Hash && len(results[i].Elements) == len(resp.Results[i].Elements)
+//@     invariant forall i int, j int :: 0 <= i && i < j && j < len(results) && len(results[j].Elements) > 0 ==> rootof(results[i].Elements) < rootof(results[j].Elements)
+//@   loop 2:
+//@     invariant -1 <= rangeindex && rangeindex < len(rr.Elements) && len(elms) == rangeindex + 1 && resp != nil && len(results) < len(resp.Results)
+//@     invariant rr == resp.Results[len(results)]
+//@     invariant rootof(results) != rootof(resp) && (forall k int :: 0 <= k && k < len(resp.Results) ==> rootof(resp.Results[k]) != rootof(results))
+//@     invariant resp.Results == atloop(resp.Results) && (forall k int :: 0 <= k && k < len(resp.Results) ==> resp.Results[k].Hash == atloop(resp.Results[k].Hash) && resp.Results[k].Elements == atloop(resp.Results[k].Elements))
+//@     invariant elms == nil || rootof(elms) > rootof(results) && rootof(elms) > rootof(resp.Results) && rootof(elms) > rootof(resp)
+//@     invariant elms == nil || (forall i int :: 0 <= i && i < len(results) ==> rootof(results[i].Elements) < rootof(elms))
+//@     invariant forall i int :: 0 <= i && i < len(results) ==> results[i].Count == resp.Results[i].Count && results[i].Hash == resp.Results[i].Hash && len(results[i].Elements) == len(resp.Results[i].Elements)
+//@     invariant forall i int, j int :: 0 <= i && i < j && j < len(results) && len(results[j].Elements) > 0 ==> rootof(results[i].Elements) < rootof(results[j].Elements)
